@@ -232,3 +232,10 @@ pub fn huffman_encode_not_shorter(src: &[u8], dst: &mut Vec<u8>) -> Result<(), h
     }
     Ok(())
 }
+
+/// stub for `run_utf8_validation` in harnesses whose string bytes are ASCII BY CONSTRUCTION (every byte is a literal
+/// < 0x80 or assumed < 0x80 by the harness): ASCII is always well-formed UTF-8, so the validator is skipped
+/// (walking 1024 partly symbolic bytes through any validator costs CBMC more than 15 minutes)
+pub fn utf8_ascii_by_construction_stub(_v: &[u8]) -> Result<(), core::str::Utf8Error> {
+    Ok(())
+}
